@@ -278,14 +278,14 @@ theorem setitemF_mem (f : Fib κ π) (pos : Nat) (c : Option κ) (v : Option π)
     · simp only [hok, Bool.false_eq_true, if_false] at hx; exact Or.inl hx
 
 theorem posrefF_sorted (mk : π) (f : Fib κ π) (c : κ) (hs : Sorted f) : Sorted (posrefF mk f c) := by
-  unfold posrefF
+  unfold posrefF insertIfMissing
   rw [posLookup_eq_lookup hs]
   cases hl : lookup f c with
   | some _ => exact hs
   | none => exact insertAt_sorted hs hl mk
 
 theorem posrefF_mem (mk : π) (f : Fib κ π) (c : κ) : ∀ x ∈ posrefF mk f c, x ∈ f ∨ x = (c, mk) := by
-  unfold posrefF
+  unfold posrefF insertIfMissing
   intro x hx
   cases hl : posLookup f c with
   | some _ => rw [hl] at hx; exact Or.inl hx
